@@ -2,7 +2,7 @@
 
    case <faults> <op> <op> ...      same input as `harness store ops`; prints per op
                                       class|A:<obs>|B:<obs>|R:<obs>   (tab separated)
-        optional first op  lf=<o|e|l,...>  local Set faults (model only)
+        optional first op  lf=<o|e|l,...>  local Set faults (made to happen by the harness: lbreak, or a key below an existing entry)
    steps <targets> <sched> <faults>   Layer 1: targets = t|t|..., t = op;op;..., op = B:<digest>:<hex.hex chunks>
                                       or R:<key>:<d1.d2>; sched = comma separated thread numbers (rest: in order);
                                       faults = string of 0/1 per step; prints the observation after every prefix
@@ -79,7 +79,12 @@ let do_case = function
         List.map lfault_of (split_comma (String.sub o 3 (String.length o - 3))), rest
       | _ -> [], ops in
     let w = ref (empty_world rf lf) in
+    let is_pre p o = String.length o > String.length p && String.sub o 0 (String.length p) = p in
     let outs = List.map (fun o ->
+        if is_pre "lbreak:" o || is_pre "lfix:" o then
+          (* the harness makes the local fault of the lf= list happen here; no model step *)
+          Printf.sprintf "ok|A:%s|B:%s|R:%s" (obs !w.locA) (obs !w.locB) (obs !w.rem)
+        else
         match parse_op o with
         | None -> "bad-op"
         | Some op ->
